@@ -429,6 +429,11 @@ func (s *socket) MaybeUpgrade(transport transports.Transport) {
 	transport.Once("error", onError)
 
 	s.Once("close", onClose)
+	// the session can have closed while this candidate was being set up, before the
+	// listener above existed: nobody would ever dismiss the candidate
+	if s.ReadyState() == "closed" {
+		onClose()
+	}
 }
 
 // Clears listeners and timers associated with current transport.
